@@ -22,6 +22,7 @@ import Rngs.Cert.LinXoroshiro128ppMain
 import Rngs.Cert.LinXoshiro128Main
 import Rngs.Cert.LinXoshiro256Main
 import Rngs.Cert.LinXoshiro512Main
+import Rngs.Props.C07
 namespace Rngs.C06
 open Rngs
 
@@ -651,5 +652,199 @@ theorem Xoshiro512StarStar_longJump_then_steps (i : Nat) (s : S8) :
 theorem Xoshiro512StarStar_longJump_outputs (i : Nat) (s : S8) :
     (Xoshiro512StarStar.nextU64 (iter Xoshiro512StarStar.step i (Xoshiro512StarStar.longJump s))).1 = (Xoshiro512StarStar.nextU64 (iter Xoshiro512StarStar.step (i + 2 ^ 384) s)).1 :=
   congrArg (fun t => (Xoshiro512StarStar.nextU64 t).1) (Xoshiro512StarStar_longJump_then_steps i s)
+
+/-! ### starting points are pairwise distinct and their segments do not overlap (uses the full period, C07)
+
+"repeated jumps from one seed enumerate starting points 2^(n/2) steps apart on the generator's cycle": combined
+with the full period the starting points are pairwise DISTINCT and the 2^(n/2)-step segments they open do not
+overlap, for every non-zero state — the guarantee parallel users of jump() rely on. -/
+
+/-- generic: if `jump = T^(2^h)` and T does not repeat before `N` steps, then `j·2^h < N` jumps give distinct states -/
+theorem jump_points_distinct_of {σ : Type} (T jump : σ → σ) (zero : σ) (h N : Nat)
+    (hjump : ∀ k s, iter jump k s = iter T (k * 2 ^ h) s)
+    (hnr : ∀ s, s ≠ zero → ∀ i j, i < j → j < N → iter T i s ≠ iter T j s)
+    (s : σ) (hs : s ≠ zero) (i j : Nat) (hij : i < j) (hj : j * 2 ^ h < N) :
+    iter jump i s ≠ iter jump j s := by
+  rw [hjump i s, hjump j s]
+  exact hnr s hs _ _ (Nat.mul_lt_mul_of_pos_right hij (Nat.two_pow_pos h)) hj
+
+/-- generic: the segments `[i·2^h, (i+1)·2^h)` opened by different jump counts are disjoint -/
+theorem jump_segments_disjoint_of {σ : Type} (T jump : σ → σ) (zero : σ) (h N : Nat)
+    (hjump : ∀ k s, iter jump k s = iter T (k * 2 ^ h) s)
+    (hadd : ∀ a b s, iter T (a + b) s = iter T a (iter T b s))
+    (hnr : ∀ s, s ≠ zero → ∀ i j, i < j → j < N → iter T i s ≠ iter T j s)
+    (s : σ) (hs : s ≠ zero) (i j a b : Nat) (hij : i < j) (ha : a < 2 ^ h) (hb : b < 2 ^ h)
+    (hj : (j + 1) * 2 ^ h < N) :
+    iter T a (iter jump i s) ≠ iter T b (iter jump j s) := by
+  rw [hjump i s, hjump j s, ← hadd, ← hadd]
+  refine hnr s hs _ _ ?_ ?_
+  · have : (i + 1) * 2 ^ h ≤ j * 2 ^ h := Nat.mul_le_mul_right _ hij
+    rw [Nat.add_mul] at this; omega
+  · rw [Nat.add_mul] at hj; omega
+
+theorem iter_add' {σ : Type} (T : σ → σ) (a b : Nat) (s : σ) : iter T (a + b) s = iter T a (iter T b s) := by
+  induction a with
+  | zero => simp [iter]
+  | succ a ih => rw [Nat.succ_add]; simp only [iter]; rw [ih]
+
+/-- Xoroshiro128Plus: `i < j` jumps from a non-zero state land on different states as long as `j·2^64 < 2^128 - 1` -/
+theorem Xoroshiro128Plus_jump_points_distinct (s : S2 64) (hs : s ≠ S2.zero) (i j : Nat) (hij : i < j) (hj : j * 2 ^ 64 < 2 ^ 128 - 1) :
+    iter Xoroshiro128Plus.jump i s ≠ iter Xoroshiro128Plus.jump j s :=
+  jump_points_distinct_of Xoroshiro128Plus.step Xoroshiro128Plus.jump S2.zero 64 (2 ^ 128 - 1) Xoroshiro128Plus_iter_jump
+    (fun s hs i j hij hj => C07.xoroshiroU64_no_repeat s hs i j hij hj) s hs i j hij hj
+
+/-- Xoroshiro128Plus: the 2^64-step output segments opened by `i < j` jumps do not overlap -/
+theorem Xoroshiro128Plus_jump_segments_disjoint (s : S2 64) (hs : s ≠ S2.zero) (i j a b : Nat) (hij : i < j)
+    (ha : a < 2 ^ 64) (hb : b < 2 ^ 64) (hj : (j + 1) * 2 ^ 64 < 2 ^ 128 - 1) :
+    iter Xoroshiro128Plus.step a (iter Xoroshiro128Plus.jump i s) ≠ iter Xoroshiro128Plus.step b (iter Xoroshiro128Plus.jump j s) :=
+  jump_segments_disjoint_of Xoroshiro128Plus.step Xoroshiro128Plus.jump S2.zero 64 (2 ^ 128 - 1) Xoroshiro128Plus_iter_jump (iter_add' _)
+    (fun s hs i j hij hj => C07.xoroshiroU64_no_repeat s hs i j hij hj) s hs i j a b hij ha hb hj
+
+/-- Xoroshiro128PlusPlus: `i < j` jumps from a non-zero state land on different states as long as `j·2^64 < 2^128 - 1` -/
+theorem Xoroshiro128PlusPlus_jump_points_distinct (s : S2 64) (hs : s ≠ S2.zero) (i j : Nat) (hij : i < j) (hj : j * 2 ^ 64 < 2 ^ 128 - 1) :
+    iter Xoroshiro128PlusPlus.jump i s ≠ iter Xoroshiro128PlusPlus.jump j s :=
+  jump_points_distinct_of Xoroshiro128PlusPlus.step Xoroshiro128PlusPlus.jump S2.zero 64 (2 ^ 128 - 1) Xoroshiro128PlusPlus_iter_jump
+    (fun s hs i j hij hj => C07.xoroshiroU64pp_no_repeat s hs i j hij hj) s hs i j hij hj
+
+/-- Xoroshiro128PlusPlus: the 2^64-step output segments opened by `i < j` jumps do not overlap -/
+theorem Xoroshiro128PlusPlus_jump_segments_disjoint (s : S2 64) (hs : s ≠ S2.zero) (i j a b : Nat) (hij : i < j)
+    (ha : a < 2 ^ 64) (hb : b < 2 ^ 64) (hj : (j + 1) * 2 ^ 64 < 2 ^ 128 - 1) :
+    iter Xoroshiro128PlusPlus.step a (iter Xoroshiro128PlusPlus.jump i s) ≠ iter Xoroshiro128PlusPlus.step b (iter Xoroshiro128PlusPlus.jump j s) :=
+  jump_segments_disjoint_of Xoroshiro128PlusPlus.step Xoroshiro128PlusPlus.jump S2.zero 64 (2 ^ 128 - 1) Xoroshiro128PlusPlus_iter_jump (iter_add' _)
+    (fun s hs i j hij hj => C07.xoroshiroU64pp_no_repeat s hs i j hij hj) s hs i j a b hij ha hb hj
+
+/-- Xoroshiro128StarStar: `i < j` jumps from a non-zero state land on different states as long as `j·2^64 < 2^128 - 1` -/
+theorem Xoroshiro128StarStar_jump_points_distinct (s : S2 64) (hs : s ≠ S2.zero) (i j : Nat) (hij : i < j) (hj : j * 2 ^ 64 < 2 ^ 128 - 1) :
+    iter Xoroshiro128StarStar.jump i s ≠ iter Xoroshiro128StarStar.jump j s :=
+  jump_points_distinct_of Xoroshiro128StarStar.step Xoroshiro128StarStar.jump S2.zero 64 (2 ^ 128 - 1) Xoroshiro128StarStar_iter_jump
+    (fun s hs i j hij hj => C07.xoroshiroU64_no_repeat s hs i j hij hj) s hs i j hij hj
+
+/-- Xoroshiro128StarStar: the 2^64-step output segments opened by `i < j` jumps do not overlap -/
+theorem Xoroshiro128StarStar_jump_segments_disjoint (s : S2 64) (hs : s ≠ S2.zero) (i j a b : Nat) (hij : i < j)
+    (ha : a < 2 ^ 64) (hb : b < 2 ^ 64) (hj : (j + 1) * 2 ^ 64 < 2 ^ 128 - 1) :
+    iter Xoroshiro128StarStar.step a (iter Xoroshiro128StarStar.jump i s) ≠ iter Xoroshiro128StarStar.step b (iter Xoroshiro128StarStar.jump j s) :=
+  jump_segments_disjoint_of Xoroshiro128StarStar.step Xoroshiro128StarStar.jump S2.zero 64 (2 ^ 128 - 1) Xoroshiro128StarStar_iter_jump (iter_add' _)
+    (fun s hs i j hij hj => C07.xoroshiroU64_no_repeat s hs i j hij hj) s hs i j a b hij ha hb hj
+
+/-- Xoshiro128Plus: `i < j` jumps from a non-zero state land on different states as long as `j·2^64 < 2^128 - 1` -/
+theorem Xoshiro128Plus_jump_points_distinct (s : S4 32) (hs : s ≠ S4.zero) (i j : Nat) (hij : i < j) (hj : j * 2 ^ 64 < 2 ^ 128 - 1) :
+    iter Xoshiro128Plus.jump i s ≠ iter Xoshiro128Plus.jump j s :=
+  jump_points_distinct_of Xoshiro128Plus.step Xoshiro128Plus.jump S4.zero 64 (2 ^ 128 - 1) Xoshiro128Plus_iter_jump
+    (fun s hs i j hij hj => C07.xoshiroU32_no_repeat s hs i j hij hj) s hs i j hij hj
+
+/-- Xoshiro128Plus: the 2^64-step output segments opened by `i < j` jumps do not overlap -/
+theorem Xoshiro128Plus_jump_segments_disjoint (s : S4 32) (hs : s ≠ S4.zero) (i j a b : Nat) (hij : i < j)
+    (ha : a < 2 ^ 64) (hb : b < 2 ^ 64) (hj : (j + 1) * 2 ^ 64 < 2 ^ 128 - 1) :
+    iter Xoshiro128Plus.step a (iter Xoshiro128Plus.jump i s) ≠ iter Xoshiro128Plus.step b (iter Xoshiro128Plus.jump j s) :=
+  jump_segments_disjoint_of Xoshiro128Plus.step Xoshiro128Plus.jump S4.zero 64 (2 ^ 128 - 1) Xoshiro128Plus_iter_jump (iter_add' _)
+    (fun s hs i j hij hj => C07.xoshiroU32_no_repeat s hs i j hij hj) s hs i j a b hij ha hb hj
+
+/-- Xoshiro128PlusPlus: `i < j` jumps from a non-zero state land on different states as long as `j·2^64 < 2^128 - 1` -/
+theorem Xoshiro128PlusPlus_jump_points_distinct (s : S4 32) (hs : s ≠ S4.zero) (i j : Nat) (hij : i < j) (hj : j * 2 ^ 64 < 2 ^ 128 - 1) :
+    iter Xoshiro128PlusPlus.jump i s ≠ iter Xoshiro128PlusPlus.jump j s :=
+  jump_points_distinct_of Xoshiro128PlusPlus.step Xoshiro128PlusPlus.jump S4.zero 64 (2 ^ 128 - 1) Xoshiro128PlusPlus_iter_jump
+    (fun s hs i j hij hj => C07.xoshiroU32_no_repeat s hs i j hij hj) s hs i j hij hj
+
+/-- Xoshiro128PlusPlus: the 2^64-step output segments opened by `i < j` jumps do not overlap -/
+theorem Xoshiro128PlusPlus_jump_segments_disjoint (s : S4 32) (hs : s ≠ S4.zero) (i j a b : Nat) (hij : i < j)
+    (ha : a < 2 ^ 64) (hb : b < 2 ^ 64) (hj : (j + 1) * 2 ^ 64 < 2 ^ 128 - 1) :
+    iter Xoshiro128PlusPlus.step a (iter Xoshiro128PlusPlus.jump i s) ≠ iter Xoshiro128PlusPlus.step b (iter Xoshiro128PlusPlus.jump j s) :=
+  jump_segments_disjoint_of Xoshiro128PlusPlus.step Xoshiro128PlusPlus.jump S4.zero 64 (2 ^ 128 - 1) Xoshiro128PlusPlus_iter_jump (iter_add' _)
+    (fun s hs i j hij hj => C07.xoshiroU32_no_repeat s hs i j hij hj) s hs i j a b hij ha hb hj
+
+/-- Xoshiro128StarStar: `i < j` jumps from a non-zero state land on different states as long as `j·2^64 < 2^128 - 1` -/
+theorem Xoshiro128StarStar_jump_points_distinct (s : S4 32) (hs : s ≠ S4.zero) (i j : Nat) (hij : i < j) (hj : j * 2 ^ 64 < 2 ^ 128 - 1) :
+    iter Xoshiro128StarStar.jump i s ≠ iter Xoshiro128StarStar.jump j s :=
+  jump_points_distinct_of Xoshiro128StarStar.step Xoshiro128StarStar.jump S4.zero 64 (2 ^ 128 - 1) Xoshiro128StarStar_iter_jump
+    (fun s hs i j hij hj => C07.xoshiroU32_no_repeat s hs i j hij hj) s hs i j hij hj
+
+/-- Xoshiro128StarStar: the 2^64-step output segments opened by `i < j` jumps do not overlap -/
+theorem Xoshiro128StarStar_jump_segments_disjoint (s : S4 32) (hs : s ≠ S4.zero) (i j a b : Nat) (hij : i < j)
+    (ha : a < 2 ^ 64) (hb : b < 2 ^ 64) (hj : (j + 1) * 2 ^ 64 < 2 ^ 128 - 1) :
+    iter Xoshiro128StarStar.step a (iter Xoshiro128StarStar.jump i s) ≠ iter Xoshiro128StarStar.step b (iter Xoshiro128StarStar.jump j s) :=
+  jump_segments_disjoint_of Xoshiro128StarStar.step Xoshiro128StarStar.jump S4.zero 64 (2 ^ 128 - 1) Xoshiro128StarStar_iter_jump (iter_add' _)
+    (fun s hs i j hij hj => C07.xoshiroU32_no_repeat s hs i j hij hj) s hs i j a b hij ha hb hj
+
+/-- Xoshiro256Plus: `i < j` jumps from a non-zero state land on different states as long as `j·2^128 < 2^256 - 1` -/
+theorem Xoshiro256Plus_jump_points_distinct (s : S4 64) (hs : s ≠ S4.zero) (i j : Nat) (hij : i < j) (hj : j * 2 ^ 128 < 2 ^ 256 - 1) :
+    iter Xoshiro256Plus.jump i s ≠ iter Xoshiro256Plus.jump j s :=
+  jump_points_distinct_of Xoshiro256Plus.step Xoshiro256Plus.jump S4.zero 128 (2 ^ 256 - 1) Xoshiro256Plus_iter_jump
+    (fun s hs i j hij hj => C07.xoshiroU64_no_repeat s hs i j hij hj) s hs i j hij hj
+
+/-- Xoshiro256Plus: the 2^128-step output segments opened by `i < j` jumps do not overlap -/
+theorem Xoshiro256Plus_jump_segments_disjoint (s : S4 64) (hs : s ≠ S4.zero) (i j a b : Nat) (hij : i < j)
+    (ha : a < 2 ^ 128) (hb : b < 2 ^ 128) (hj : (j + 1) * 2 ^ 128 < 2 ^ 256 - 1) :
+    iter Xoshiro256Plus.step a (iter Xoshiro256Plus.jump i s) ≠ iter Xoshiro256Plus.step b (iter Xoshiro256Plus.jump j s) :=
+  jump_segments_disjoint_of Xoshiro256Plus.step Xoshiro256Plus.jump S4.zero 128 (2 ^ 256 - 1) Xoshiro256Plus_iter_jump (iter_add' _)
+    (fun s hs i j hij hj => C07.xoshiroU64_no_repeat s hs i j hij hj) s hs i j a b hij ha hb hj
+
+/-- Xoshiro256PlusPlus: `i < j` jumps from a non-zero state land on different states as long as `j·2^128 < 2^256 - 1` -/
+theorem Xoshiro256PlusPlus_jump_points_distinct (s : S4 64) (hs : s ≠ S4.zero) (i j : Nat) (hij : i < j) (hj : j * 2 ^ 128 < 2 ^ 256 - 1) :
+    iter Xoshiro256PlusPlus.jump i s ≠ iter Xoshiro256PlusPlus.jump j s :=
+  jump_points_distinct_of Xoshiro256PlusPlus.step Xoshiro256PlusPlus.jump S4.zero 128 (2 ^ 256 - 1) Xoshiro256PlusPlus_iter_jump
+    (fun s hs i j hij hj => C07.xoshiroU64_no_repeat s hs i j hij hj) s hs i j hij hj
+
+/-- Xoshiro256PlusPlus: the 2^128-step output segments opened by `i < j` jumps do not overlap -/
+theorem Xoshiro256PlusPlus_jump_segments_disjoint (s : S4 64) (hs : s ≠ S4.zero) (i j a b : Nat) (hij : i < j)
+    (ha : a < 2 ^ 128) (hb : b < 2 ^ 128) (hj : (j + 1) * 2 ^ 128 < 2 ^ 256 - 1) :
+    iter Xoshiro256PlusPlus.step a (iter Xoshiro256PlusPlus.jump i s) ≠ iter Xoshiro256PlusPlus.step b (iter Xoshiro256PlusPlus.jump j s) :=
+  jump_segments_disjoint_of Xoshiro256PlusPlus.step Xoshiro256PlusPlus.jump S4.zero 128 (2 ^ 256 - 1) Xoshiro256PlusPlus_iter_jump (iter_add' _)
+    (fun s hs i j hij hj => C07.xoshiroU64_no_repeat s hs i j hij hj) s hs i j a b hij ha hb hj
+
+/-- Xoshiro256StarStar: `i < j` jumps from a non-zero state land on different states as long as `j·2^128 < 2^256 - 1` -/
+theorem Xoshiro256StarStar_jump_points_distinct (s : S4 64) (hs : s ≠ S4.zero) (i j : Nat) (hij : i < j) (hj : j * 2 ^ 128 < 2 ^ 256 - 1) :
+    iter Xoshiro256StarStar.jump i s ≠ iter Xoshiro256StarStar.jump j s :=
+  jump_points_distinct_of Xoshiro256StarStar.step Xoshiro256StarStar.jump S4.zero 128 (2 ^ 256 - 1) Xoshiro256StarStar_iter_jump
+    (fun s hs i j hij hj => C07.xoshiroU64_no_repeat s hs i j hij hj) s hs i j hij hj
+
+/-- Xoshiro256StarStar: the 2^128-step output segments opened by `i < j` jumps do not overlap -/
+theorem Xoshiro256StarStar_jump_segments_disjoint (s : S4 64) (hs : s ≠ S4.zero) (i j a b : Nat) (hij : i < j)
+    (ha : a < 2 ^ 128) (hb : b < 2 ^ 128) (hj : (j + 1) * 2 ^ 128 < 2 ^ 256 - 1) :
+    iter Xoshiro256StarStar.step a (iter Xoshiro256StarStar.jump i s) ≠ iter Xoshiro256StarStar.step b (iter Xoshiro256StarStar.jump j s) :=
+  jump_segments_disjoint_of Xoshiro256StarStar.step Xoshiro256StarStar.jump S4.zero 128 (2 ^ 256 - 1) Xoshiro256StarStar_iter_jump (iter_add' _)
+    (fun s hs i j hij hj => C07.xoshiroU64_no_repeat s hs i j hij hj) s hs i j a b hij ha hb hj
+
+/-- Xoshiro512Plus: `i < j` jumps from a non-zero state land on different states as long as `j·2^256 < 2^512 - 1` -/
+theorem Xoshiro512Plus_jump_points_distinct (s : S8) (hs : s ≠ S8.zero) (i j : Nat) (hij : i < j) (hj : j * 2 ^ 256 < 2 ^ 512 - 1) :
+    iter Xoshiro512Plus.jump i s ≠ iter Xoshiro512Plus.jump j s :=
+  jump_points_distinct_of Xoshiro512Plus.step Xoshiro512Plus.jump S8.zero 256 (2 ^ 512 - 1) Xoshiro512Plus_iter_jump
+    (fun s hs i j hij hj => C07.xoshiroLarge_no_repeat s hs i j hij hj) s hs i j hij hj
+
+/-- Xoshiro512Plus: the 2^256-step output segments opened by `i < j` jumps do not overlap -/
+theorem Xoshiro512Plus_jump_segments_disjoint (s : S8) (hs : s ≠ S8.zero) (i j a b : Nat) (hij : i < j)
+    (ha : a < 2 ^ 256) (hb : b < 2 ^ 256) (hj : (j + 1) * 2 ^ 256 < 2 ^ 512 - 1) :
+    iter Xoshiro512Plus.step a (iter Xoshiro512Plus.jump i s) ≠ iter Xoshiro512Plus.step b (iter Xoshiro512Plus.jump j s) :=
+  jump_segments_disjoint_of Xoshiro512Plus.step Xoshiro512Plus.jump S8.zero 256 (2 ^ 512 - 1) Xoshiro512Plus_iter_jump (iter_add' _)
+    (fun s hs i j hij hj => C07.xoshiroLarge_no_repeat s hs i j hij hj) s hs i j a b hij ha hb hj
+
+/-- Xoshiro512PlusPlus: `i < j` jumps from a non-zero state land on different states as long as `j·2^256 < 2^512 - 1` -/
+theorem Xoshiro512PlusPlus_jump_points_distinct (s : S8) (hs : s ≠ S8.zero) (i j : Nat) (hij : i < j) (hj : j * 2 ^ 256 < 2 ^ 512 - 1) :
+    iter Xoshiro512PlusPlus.jump i s ≠ iter Xoshiro512PlusPlus.jump j s :=
+  jump_points_distinct_of Xoshiro512PlusPlus.step Xoshiro512PlusPlus.jump S8.zero 256 (2 ^ 512 - 1) Xoshiro512PlusPlus_iter_jump
+    (fun s hs i j hij hj => C07.xoshiroLarge_no_repeat s hs i j hij hj) s hs i j hij hj
+
+/-- Xoshiro512PlusPlus: the 2^256-step output segments opened by `i < j` jumps do not overlap -/
+theorem Xoshiro512PlusPlus_jump_segments_disjoint (s : S8) (hs : s ≠ S8.zero) (i j a b : Nat) (hij : i < j)
+    (ha : a < 2 ^ 256) (hb : b < 2 ^ 256) (hj : (j + 1) * 2 ^ 256 < 2 ^ 512 - 1) :
+    iter Xoshiro512PlusPlus.step a (iter Xoshiro512PlusPlus.jump i s) ≠ iter Xoshiro512PlusPlus.step b (iter Xoshiro512PlusPlus.jump j s) :=
+  jump_segments_disjoint_of Xoshiro512PlusPlus.step Xoshiro512PlusPlus.jump S8.zero 256 (2 ^ 512 - 1) Xoshiro512PlusPlus_iter_jump (iter_add' _)
+    (fun s hs i j hij hj => C07.xoshiroLarge_no_repeat s hs i j hij hj) s hs i j a b hij ha hb hj
+
+/-- Xoshiro512StarStar: `i < j` jumps from a non-zero state land on different states as long as `j·2^256 < 2^512 - 1` -/
+theorem Xoshiro512StarStar_jump_points_distinct (s : S8) (hs : s ≠ S8.zero) (i j : Nat) (hij : i < j) (hj : j * 2 ^ 256 < 2 ^ 512 - 1) :
+    iter Xoshiro512StarStar.jump i s ≠ iter Xoshiro512StarStar.jump j s :=
+  jump_points_distinct_of Xoshiro512StarStar.step Xoshiro512StarStar.jump S8.zero 256 (2 ^ 512 - 1) Xoshiro512StarStar_iter_jump
+    (fun s hs i j hij hj => C07.xoshiroLarge_no_repeat s hs i j hij hj) s hs i j hij hj
+
+/-- Xoshiro512StarStar: the 2^256-step output segments opened by `i < j` jumps do not overlap -/
+theorem Xoshiro512StarStar_jump_segments_disjoint (s : S8) (hs : s ≠ S8.zero) (i j a b : Nat) (hij : i < j)
+    (ha : a < 2 ^ 256) (hb : b < 2 ^ 256) (hj : (j + 1) * 2 ^ 256 < 2 ^ 512 - 1) :
+    iter Xoshiro512StarStar.step a (iter Xoshiro512StarStar.jump i s) ≠ iter Xoshiro512StarStar.step b (iter Xoshiro512StarStar.jump j s) :=
+  jump_segments_disjoint_of Xoshiro512StarStar.step Xoshiro512StarStar.jump S8.zero 256 (2 ^ 512 - 1) Xoshiro512StarStar_iter_jump (iter_add' _)
+    (fun s hs i j hij hj => C07.xoshiroLarge_no_repeat s hs i j hij hj) s hs i j a b hij ha hb hj
+
+/-- the hypotheses are satisfiable: state (1,0,0,0), 3 < 5 jumps, offsets 7 and 9 -/
+example : ∃ (s : S4 64) (i j a b : Nat), s ≠ S4.zero ∧ i < j ∧ a < 2 ^ 128 ∧ b < 2 ^ 128 ∧ (j + 1) * 2 ^ 128 < 2 ^ 256 - 1 :=
+  ⟨⟨1, 0, 0, 0⟩, 3, 5, 7, 9, by decide, by decide, by decide, by decide, by decide⟩
 
 end Rngs.C06
